@@ -16,6 +16,9 @@ def dispatch(prop):
     if prop in ("C04", "C05", "C07"):
         import conversions
         return lambda tier, seed: conversions.run_shapes(prop, tier, seed)
+    if prop in ("C03", "C06", "C11", "C12"):
+        import quantities
+        return lambda tier, seed: quantities.run_quant(prop, tier, seed)
     if prop == "C08":
         import conversions
         return conversions.run_c08
